@@ -106,7 +106,7 @@ func concSpecs(tier core.Tier) []concSpec {
 	// triples over the queries with few mapper calls (all interleavings stay enumerable: <= 13!/(5!4!4!) schedules)
 	pool := []int{0, 5, 7}
 	if tier == core.Thorough {
-		pool = []int{0, 5, 7, 2, 1}
+		pool = []int{0, 5, 7, 2, 4}
 	}
 	for a := 0; a < len(pool); a++ {
 		for b := a; b < len(pool); b++ {
